@@ -119,7 +119,7 @@ Theorem C10_excluded_absent :
       file_only arts -> record H excl root fuel arts bp o cwd = Ok d ->
       enter_base root fuel cwd bp = Ok base -> lookup name d = Some h ->
       exists start f c, In start arts /\ name_of (o_lstrip o) start f = name /\
-        excl (start_path start) = false /\
+        excl_start excl (start_path start) = false /\
         (f = start_path start \/
          exists ns, ns <> [] /\ f = fold_left child ns (start_path start) /\
            forall j, (0 < j <= length ns)%nat ->
@@ -250,4 +250,27 @@ Print Assumptions C10_unclean_refuted.
 (** … and the same tree under any prefix list fails closed: *)
 Example ex_backslash_with_prefix_list :
   record idH no_excl bs_tree 5 [[46]%N] None (mkFopts false false [[122;122;122]%N]) [] = Err EPrefix.
+Proof. vm_compute. reflexivity. Qed.
+
+(* ------------------------------------------------------------------ *)
+(** * The start directory '.' itself is never excluded (D10c, fixed in /repo by 90c1cf0):
+    whatever the pattern oracle says about '.', the files reachable from the start path '.' are exactly the
+    non-excluded ones below it — a pattern for hidden files ('.*' matches '.') does not empty the recording. *)
+Theorem C10_start_dot_never_excluded :
+  forall (root : entries) (excl : str -> bool) (follow : bool) (cwd : list str) (u f : str) (c : list N),
+    start_path u = [46]%N ->
+    (reachable root excl follow cwd u f c <->
+     ((path_denotes root cwd [46]%N (RFile c) /\ f = [46]%N) \/
+      (exists loc, path_denotes root cwd [46]%N (RDir loc) /\ below root excl follow [46]%N loc f c))).
+Proof.
+  intros root excl follow cwd u f c Hs. unfold reachable. rewrite Hs.
+  assert (excl_start excl [46]%N = false) as -> by reflexivity. tauto.
+Qed.
+Print Assumptions C10_start_dot_never_excluded.
+
+(** non-vacuity: with an oracle that excludes '.' and every hidden name, recording '.' still yields the plain file *)
+Definition hidden_excl (p : str) : bool := match p with 46%N :: _ => true | _ => false end.
+Example ex_hidden_pattern_keeps_plain_files :
+  record idH hidden_excl [([46;104]%N, File [49]%N); ([97]%N, File [50]%N)] 5 [[46]%N] None (mkFopts false false []) []
+  = Ok [([97]%N, [50]%N)].
 Proof. vm_compute. reflexivity. Qed.
